@@ -206,6 +206,16 @@ def render(case):
             if b["t"] == "bad_image_file":
                 files[f"source/images/garbage-{b['n']}.png"] = b"this is not a png file\n"
 
+    # a page that is not UTF-8: reported under the page at the line that holds the first undecodable byte - a line is what ends in
+    # "\n" in the file, whatever stands before the byte on the way (letters of several bytes, "\r\n" line ends)
+    g = case.get("garbled")
+    if g:
+        filler = {"plain": b"Plain line.\n", "multibyte": "Zeile mit \u00e4\u00f6\u00fc\u00df \u65e5\u672c\u8a9e \U0001f600 \u00e9\u00e9\u00e9\u00e9\u00e9\u00e9\u00e9\u00e9.\n".encode("utf-8"),
+                  "crlf": b"Windows line.\r\n", "cr": b"old\rmac\rline\n"}[g["style"]]
+        files["source/garbled.txt"] = (b"=======\nGarbled\n=======\n\n" + filler * g["line"] + b"caf\xe9 latin-1 text\nmore\n")
+        faults.append({"file": "garbled.txt", "line": 4 + g["line"], "classes": ["CannotOpenFile"], "kind": "undecodable", "in": "page", "n": 0})
+        faults.append({"file": "garbled.txt", "line": 0, "classes": ["OrphanedPage"], "kind": "orphan", "in": "page", "n": "garbled"})
+
     # shared includes: faults are expected under the include file, at the line inside it
     used_inc = {b.get("name") for p in case["pages"] for b in p["blocks"] if b["t"] == "use_include"}
     used_ext = {b.get("name") for p in case["pages"] for b in p["blocks"] if b["t"] == "use_extract"}
@@ -689,6 +699,8 @@ class C14(core.PropertyCheck):
             cfg["facets"] = rng.choice(["valid", "partly", "partly", "invalid"])
         case = {"kind": "e2e", "pages": pages, "includes": includes, "yaml": yamls, "config": cfg,
                 "toc_missing": [f"nopage-{j}" for j in range(rng.choice([0, 0, 1, 2]))]}
+        if rng.random() < 0.15:
+            case["garbled"] = {"style": rng.choice(["plain", "multibyte", "multibyte", "crlf", "cr"]), "line": rng.randint(0, 6)}
         _, faults = render(case)
         classes = sorted({c for f in faults for c in f["classes"]} | ({"ImageSizeUndetermined"} if any(
             b["t"] == "bad_image_file" for p in pages for b in p["blocks"]) else set()))
